@@ -9,6 +9,8 @@ import sys
 import tempfile
 import time
 import warnings
+
+import numpy as np
 from collections import Counter
 
 LEVEL = "exploration"
@@ -202,7 +204,9 @@ def run_shard(spec):
                 fault["next"] = op["kind"]
                 continue
             if op["op"] == "evalall":
-                for o in driver.held_objects(m):
+                from PEPit.constraint import Constraint as _C
+                from PEPit.psd_matrix import PSDMatrix as _M
+                for o in driver.held_objects(m) + [v_ for v_ in m.regs.values() if isinstance(v_, (_C, _M))]:
                     try:
                         o.eval()
                     except Exception:
@@ -278,6 +282,44 @@ def run_shard(spec):
                     V("after_resolve:" + f["key"], "solve #%d: %s" % (k_solve, f["what"]), solve_index=k_solve, **wit)
                 elif f["grade"] == "violated":
                     counters["first_solve_findings(other properties)"] = counters.get("first_solve_findings(other properties)", 0) + 1
+            # constraints / LMIs the user holds - also those an edit removed from the model, or that were never added to it -
+            # evaluate to the LATEST solution: their leaves are leaves of this model
+            if k_solve > 1:
+                from PEPit.constraint import Constraint as _C
+                from PEPit.psd_matrix import PSDMatrix as _M
+                from PEPit.point import Point as _P
+                from PEPit.expression import Expression as _E
+                from pv import canon as _canon
+                try:
+                    pv_ = {id(p_): np.asarray(p_.eval(), dtype=float) for p_ in _P.list_of_leaf_points}
+                    ev_ = {id(e_): float(e_.eval()) for e_ in _E.list_of_leaf_expressions}
+                except Exception:
+                    pv_ = None
+                fam_ = oracles.solver_family(rec)
+                sc_ = 1.0 + max([float(np.max(np.abs(v_), initial=0.0)) ** 2 for v_ in pv_.values()] + [abs(x_) for x_ in ev_.values()] + [0.0]) if pv_ is not None else 1.0
+                for nm_, o_ in (list(m.regs.items()) if pv_ is not None else []):
+                    try:
+                        if isinstance(o_, _C):
+                            got_ = float(o_.eval())
+                            want_ = _canon.expr_value_assign(o_.expression, pv_, ev_)
+                            counters["held_constraints_evaluated_after_resolve"] = counters.get("held_constraints_evaluated_after_resolve", 0) + 1
+                            if oracles._grade(abs(got_ - want_), sc_ * (1.0 + abs(want_)), fam_) == "violated":
+                                V("after_resolve:held_constraint_eval_stale", "solve #%d: a held constraint evaluates to %.9g, the latest "
+                                  "solution gives %.9g" % (k_solve, got_, want_), solve_index=k_solve, **wit)
+                        elif isinstance(o_, _M):
+                            got_ = np.asarray(o_.eval(), dtype=float)
+                            want_ = np.array([[_canon.expr_value_assign(o_[i_, j_], pv_, ev_) for j_ in range(o_.shape[1])] for i_ in range(o_.shape[0])])
+                            counters["held_lmis_evaluated_after_resolve"] = counters.get("held_lmis_evaluated_after_resolve", 0) + 1
+                            d_ = float(np.max(np.abs(got_ - want_), initial=0.0))
+                            if oracles._grade(d_, sc_ * (1.0 + float(np.max(np.abs(want_), initial=0.0))), fam_) == "violated":
+                                V("after_resolve:held_lmi_eval_stale", "solve #%d: a held LMI evaluates %.3e away from the latest solution"
+                                  % (k_solve, d_), solve_index=k_solve, **wit)
+                    except _canon.CanonError:
+                        pass
+                    except KeyError:
+                        pass
+                    except ValueError:
+                        pass
             # the per-function dual tables (the user's view of the certificate) must refer to the constraints of THIS solve
             if k_solve > 1:
                 import pandas as pd
